@@ -83,7 +83,7 @@ def run_history(rng, kind, ops):
                 st, res = observe(arch.__iadd__, ind)
             else:
                 st, res = observe(arch.__iadd__, [ind])
-            ev = {"ev": "add", "x": proj[id(ind)][0], "res": False, "inserted": False, "after": [], "exc": ""}
+            ev = {"ev": "add", "comp": kind, "x": proj[id(ind)][0], "res": False, "inserted": False, "after": [], "exc": ""}
             if st == "exc":
                 ev["exc"] = res
             else:
@@ -172,9 +172,11 @@ class Hist(Part):
             m, n = case["m"], case["n"]
             pools = [absx.monotone_map(rng, rng.randint(3, 6)) for _ in range(m)]
             fpool = absx.monotone_map(rng, 5) + [math.inf]
+            mstyle_r = rng.randrange(3)
             ops = []
             for k in range(n):
-                v = [rng.choice(p) for p in pools] + [rng.random() < 0.2]
+                # markers: feasible mostly; infeasible ones of either sign and two magnitudes (one concrete value per abstract class)
+                v = [rng.choice(p) for p in pools] + [absx.concrete_marker(rng, rng.choice([0, 0, 0, 0, 0, 1, -1, 1, -1, 2, -2]), mstyle_r)]
                 ops.append(("add", v, rng.choice(fpool)))
                 if rng.random() < 0.05:
                     ops.append(("trunc", rng.choice([0, 1, 1, 2, 3, 4, 6])))
